@@ -107,6 +107,13 @@ class Application(IOSoftware, ABC):
                 func=lambda request, context: RequestResponse.from_bool(self.close()), validator=_is_application_running
             ),
         )
+
+        def _execute(request: RequestFormat, context: Dict) -> RequestResponse:
+            """Generic execute: open the application. Applications with an operation of their own override this."""
+            self.run()
+            return RequestResponse.from_bool(self.operating_state == ApplicationOperatingState.RUNNING)
+
+        rm.add_request("execute", RequestType(func=_execute))
         rm.add_request(
             "fix",
             RequestType(
